@@ -21,7 +21,7 @@ pub struct Env {
 }
 
 pub fn true_attrs() -> Value {
-    json!({"match": "ok", "root": "world", "pow": "world", "cont": "ok", "mmr": "ok", "tau": "world", "td": "ok"})
+    json!({"match": "ok", "root": "world", "pow": "world", "cont": "ok", "mmr": "ok", "tau": "world", "td": "world"})
 }
 
 impl Env {
